@@ -16,7 +16,7 @@ from vlib import core
 
 LEVEL = "model_checking"
 
-QUICK = ["goone", "gomix", "ops", "semis", "cmt", "num1", "num2", "quoted"]
+QUICK = ["goone", "gomix", "div", "linedir", "ops", "semis", "cmt", "num1", "num2", "quoted"]
 THOROUGH = ["gomix", "gopairs", "ops", "semis", "num1", "num2", "num6", "quoted", "quoted6"]
 
 
